@@ -77,9 +77,14 @@ def direct(ctx, entries, count=False):
                 t32 = tcorr.build(e, gen, torch.float32, regime)
                 t64 = copy.deepcopy(t32).double()
                 for inverse in (False, True):
-                    if inverse and (e.name.startswith('Squeeze') or 'UMNN' in e.name):
+                    if inverse and (e.name.startswith('Squeeze') or 'UMNN' in e.name or e.extra.get('train')):
                         continue   # UMNN: independently drawn points need not lie in the range reachable by the bisection bracket
                     x32 = R.make_inputs(e, 3, gen, torch.float32, inverse)
+                    if e.extra.get('train'):
+                        # training-mode statistics on data whose mean is large relative to its spread (moderate magnitudes)
+                        t32 = tcorr.build(e, gen, torch.float32, regime); t64 = copy.deepcopy(t32).double()
+                        t32.train(); t64.train()
+                        x32 = e.extra['offset'] + e.extra['spread'] * torch.randn((16,) + e.in_shape, generator=gen, dtype=torch.float32)
                     c32 = R.make_context(e, 3, gen, torch.float32)
                     k32, y32, l32 = R.impl_call(t32, x32, c32, inverse)
                     k64, y64, l64 = R.impl_call(t64, x32.double(), c32.double() if c32 is not None else None, inverse)
@@ -97,7 +102,8 @@ def direct(ctx, entries, count=False):
                                  match=M('dtype')); continue
                     if not (torch.isfinite(y32).all() and torch.isfinite(l32).all()):
                         ctx.fail('non-finite float32 result', case, match=M('non-finite')); continue
-                    kap = torch.exp(l64.abs().clamp(max=20))
+                    # conditioning per dimension (geometric mean of the diagonal derivatives), not of the whole determinant
+                    kap = torch.exp((l64.abs() / max(1, x32[0].numel())).clamp(max=20)) if e.kind == 'extra' else torch.exp(l64.abs().clamp(max=20))
                     cub = 0.25 if e.spline.get('fam') == 'cubic' else 0.0   # Hermite coefficients (d0+d1-2s)/w^2 cancel badly in float32
                     tol_l = 256 * U32 * (1 + l64.abs()) * kap * max(1, x32[0].numel()) + cub
                     if ((l32.double() - l64).abs() > tol_l + oracles._declared(e)).any():
